@@ -1,16 +1,10 @@
 (* Cal.v — the calendars a user can hold, as values of the generated [Calendar] type, described
    from the specification: [cal_of c] is built from spec labels only.  (That [Calendar_reforming r]
    returns exactly [cal_of (CR r)] is proved in Reform.v.) *)
-From JV Require Import Sem Gen Spec.
+From JV Require Import Sem Gen Spec SpecX.
 From JV.Proofs Require Import SpecFacts.
 Open Scope Z_scope.
 Ltac Zify.zify_post_hook ::= Z.to_euclidean_division_equations.
-
-Definition month_of_Z (n : Z) : Month :=
-  if n =? 1 then Month_January else if n =? 2 then Month_February else if n =? 3 then Month_March
-  else if n =? 4 then Month_April else if n =? 5 then Month_May else if n =? 6 then Month_June
-  else if n =? 7 then Month_July else if n =? 8 then Month_August else if n =? 9 then Month_September
-  else if n =? 10 then Month_October else if n =? 11 then Month_November else Month_December.
 
 Lemma Month_discr_range m : 1 <= Month_discr m <= 12.
 Proof. destruct m; cbn; lia. Qed.
@@ -25,31 +19,7 @@ Qed.
 Lemma Month_discr_inj a b : Month_discr a = Month_discr b -> a = b.
 Proof. intros H. rewrite <- (month_of_Z_discr a), <- (month_of_Z_discr b), H. reflexivity. Qed.
 
-Definition gap_kind (py pm qy qm : Z) : inner_GapKind :=
-  if py =? qy then (if pm =? qm then inner_GapKind_IntraMonth else inner_GapKind_CrossMonth)
-  else if py + 1 =? qy then inner_GapKind_CrossYear else inner_GapKind_MultiYear.
-
 (* the gap record of the reforming calendar with reformation day r, from spec labels *)
-Definition gap_of (r : Z) : inner_ReformGap :=
-  let '(py, pm, pd) := jlabel (r - 1) in
-  let '(qy, qm, qd) := glabel r in
-  let po := r - 1 - J0 py + 1 in      (* Julian day-of-year of day r-1 *)
-  let qo := r - G0 qy + 1 in          (* Gregorian day-of-year of day r *)
-  let kind := gap_kind py pm qy qm in
-  let same_year := py =? qy in
-  mkinner_ReformGap
-    (mkinner_Date py po (month_of_Z pm) pd)
-    (mkinner_Date qy (if same_year then po + 1 else 1) (month_of_Z qm) qd)
-    kind
-    (if same_year then qo - 1 else 0)
-    (if same_year then qo - po - 1 else qo - 1).
-
-Definition cal_of (c : cal) : Calendar :=
-  match c with
-  | CJ => Calendar_JULIAN
-  | CG => Calendar_GREGORIAN
-  | CR r => mkCalendar (inner_Calendar_Reforming r (gap_of r))
-  end.
 
 (* every calendar value obtainable through the public API (fields are private) *)
 Definition WfCal (k : Calendar) : Prop := exists c, ValidCal c /\ k = cal_of c.
